@@ -206,6 +206,8 @@ def lru_inv(at, n, cache="self"):
         f"{R(at('0'))} is {cache}.sentinel",
         f"{n} == len({cache}.data) + 1",
         f"all(({R(at('i'))}.key in {cache}.data) and ({cache}.data[{R(at('i'))}.key] is {R(at('i'))}) for i in range(1, {n}))",
+        f"all({cache}.data[k].key == k for k in {cache}.data)",
+        f"all(allocated({R(at('i'))}) for i in range({n}))",
     ]
 
 
@@ -234,4 +236,123 @@ REG.contract(
     ],
     props=["C17"],
     note="LRUCache.get: never a stale answer; the stored unexpired answer is returned; exactly one counter moves",
+)
+_HITC = "(result is not None)"
+_EXPC = "((result is None) and (key in old_self.data))"
+_MISSC = "(not (key in old_self.data))"
+_KEEP = "all((k in self.data) and (self.data[k] is old_self.data[k]) for k in old_self.data)"
+REG.contract(
+    "dns.resolver.LRUCache.get#ring",
+    target="dns.resolver.LRUCache.get", verify_only=True, heavy=True,
+    params={"self": LRU, "key": T.int, "order": T.id_seq(), "j": T.int},
+    requires=lru_inv(_ORD, "len(order)") + [_KEYED, _FOUND],
+    modifies=_MODS,
+    raises=[],
+    returns=T.ref(ANS, nullable=True),
+    ensures=(
+        # hit: the node moves to the front of the recency order, nothing else moves, the dict is unchanged
+        [f"(not {_HITC}) or ({c})" for c in lru_inv(_HIT, "len(order)") + [_KEEP]]
+        # expired: the node leaves ring and dict, the rest keeps its order
+        + [f"(not {_EXPC}) or ({c})" for c in lru_inv(_DROP, "(len(order) - 1)") + [
+            "not (key in self.data)", "all((k == key) or ((k in self.data) and (self.data[k] is old_self.data[k])) for k in old_self.data)"]]
+        # miss: nothing changes
+        + [f"(not {_MISSC}) or ({c})" for c in lru_inv(_ORD, "len(order)") + [_KEEP]]
+    ),
+    props=["C17"],
+    note="LRUCache.get, recency structure: on a hit the node becomes the most recently used and the relative order of all "
+         "others is kept; an expired node is removed from ring and dict; the ring/dict invariant (ghost order) is preserved "
+         "in every case (about 100 VCs, minutes: thorough tier)",
+)
+
+# ---- put: [drop the node of an existing key]; evict from the tail while full; insert a new node at the front
+_PRESENT = "(key in old_self.data)"
+_N1 = f"(len(order) - (1 if {_PRESENT} else 0))"
+_ORD1 = lambda e: f"(order[{e}] if ((not {_PRESENT}) or ({e}) < j) else order[({e}) + 1])"
+_PUTF = lambda e: f"(order[0] if ({e}) == 0 else (idof(self.data[key]) if ({e}) == 1 else {_ORD1(f'({e}) - 1')}))"
+_SUB = "all((k in old_self.data) and (self.data[k] is old_self.data[k]) for k in self.data)"
+
+REG.contract(
+    "dns.resolver.LRUCache.put",
+    heavy=True,
+    params={"self": LRU, "key": T.int, "value": T.ref(ANS), "order": T.id_seq(), "j": T.int},
+    requires=lru_inv(_ORD, "len(order)") + [_KEYED, _FOUND, "self.max_size >= 1"],
+    modifies={"self.data": T.map_of(T.int, T.ref(NODE))},
+    raises=[],
+    loops={
+        0: loop(
+            invariant=lru_inv(_ORD1, "(len(self.data) + 1)") + [
+                f"len(self.data) + 1 <= {_N1}",
+                "not (key in self.data)",
+                _SUB,
+            ],
+            decreases=["len(self.data)"],
+            modifies={"self.data": T.map_of(T.int, T.ref(NODE), sized=True)},
+            modifies_heap=[(NODE, "prev"), (NODE, "next")],
+        ),
+    },
+    ensures=[
+        # the bound
+        "len(self.data) <= self.max_size",
+        # the key maps to a fresh node holding the value
+        "(key in self.data) and (self.data[key].value is value) and (self.data[key].key == key) and (self.data[key].hits == 0)",
+        "all(not (self.data[key] is old_self.data[k]) for k in old_self.data)",
+        # every other surviving entry is an old entry, unchanged
+        "all((k == key) or ((k in old_self.data) and (self.data[k] is old_self.data[k])) for k in self.data)",
+        # strictly LRU-first eviction: the survivors are exactly the most recently used old entries, in their old order,
+        # behind the new node
+        f"len(self.data) <= {_N1}",
+    ] + lru_inv(_PUTF, "(len(self.data) + 1)"),
+    props=["C17"],
+    note="LRUCache.put: never more than max_size entries; the new node is the most recently used; what is evicted is a "
+         "suffix of the old recency order (strictly least-recently-used first); ring/dict invariant preserved; no KeyError "
+         "(about 170 VCs, ten minutes: thorough tier)",
+)
+
+# ---- set_max_size: evict from the least-recently-used end until the new limit holds
+REG.contract(
+    "dns.resolver.LRUCache.set_max_size",
+    heavy=True,
+    params={"self": LRU, "max_size": T.int, "order": T.id_seq()},
+    requires=lru_inv(_ORD, "len(order)"),
+    modifies={"self.data": T.map_of(T.int, T.ref(NODE)), "self.max_size": None},
+    raises=[],
+    loops={
+        0: loop(
+            invariant=lru_inv(_ORD, "(len(self.data) + 1)") + [
+                "len(self.data) + 1 <= len(order)",
+                _SUB,
+                "self.max_size == (max_size if max_size >= 1 else 1)",
+            ],
+            decreases=["len(self.data)"],
+            modifies={"self.data": T.map_of(T.int, T.ref(NODE), sized=True)},
+            modifies_heap=[(NODE, "prev"), (NODE, "next")],
+        ),
+    },
+    ensures=[
+        "self.max_size == (max_size if max_size >= 1 else 1)",
+        "len(self.data) <= self.max_size",
+        # what survives is the most-recently-used prefix of the old order, untouched; nothing is evicted needlessly
+        "len(self.data) == (len(old_self.data) if len(old_self.data) <= self.max_size else self.max_size)",
+        _SUB,
+    ] + lru_inv(_ORD, "(len(self.data) + 1)"),
+    props=["C17"],
+    note="LRUCache.set_max_size: the limit is at least 1; entries are evicted strictly from the least-recently-used end and "
+         "only as many as needed; ring/dict invariant preserved; no KeyError (thorough tier)",
+)
+
+REG.contract(
+    "dns.resolver.LRUCache.flush#key",
+    target="dns.resolver.LRUCache.flush", verify_only=True, heavy=True,
+    params={"self": LRU, "key": T.int, "order": T.id_seq(), "j": T.int},
+    requires=lru_inv(_ORD, "len(order)") + [_KEYED, _FOUND],
+    modifies={"self.data": T.map_of(T.int, T.ref(NODE))},
+    raises=[],
+    ensures=[
+        "not (key in self.data)",
+        "all((k == key) or ((k in self.data) and (self.data[k] is old_self.data[k])) for k in old_self.data)",
+        _SUB,
+    ] + [f"(not {_PRESENT}) or ({c})" for c in lru_inv(_DROP, "(len(order) - 1)")]
+      + [f"{_PRESENT} or ({c})" for c in lru_inv(_ORD, "len(order)")],
+    props=["C17"],
+    note="LRUCache.flush(key): exactly that entry leaves dict and ring; the recency order of the others is kept (thorough tier)",
 )
